@@ -7,8 +7,9 @@ Mirrors, as they are (quirks included):
   pkg/segment/query/processor/streamer.go        CachedStream (exhausted flag: after EOF only (nil, EOF))
   pkg/segment/query/processor/queryprocessor.go  GetFullResult (563-590): Fetch until EOF, outputs appended
   pkg/segment/query/processor/headcommand.go     headProcessor.Process (plain limit; BoolExpr == nil), Rewind
-  pkg/segment/query/processor/tailcommand.go     tailProcessor.Process / GetFinalResultIfExists
-  pkg/segment/query/processor/dedupcommand.go    dedupProcessor.Process / Rewind (key = XOR of per-field hashes)
+  pkg/segment/query/processor/tailcommand.go     tailProcessor.Process / GetFinalResultIfExists (hands out a COPY of finalIqr)
+  pkg/segment/query/processor/dedupcommand.go    dedupProcessor.Process / Rewind (key = digest of the SEQUENCE of per-field hashes;
+                                                 columns read with backfill: an absent column reads as nulls)
   pkg/segment/query/processor/fillnullcommand.go fillnullProcessor.Process / Rewind (field list; two-pass without)
   pkg/segment/query/processor/renamecommand.go   renameProcessor.Process (REMPhrase, one pair) + IQR.RenameColumn
   pkg/segment/query/processor/fieldscommand.go   fieldsProcessor.Process (literal names) + IQR.AddColumnsToDelete
@@ -25,7 +26,8 @@ common key set before running the model (exactly what the harness does when it b
 (`NumberOfRecords` looks at the first column): rows that lose their last key disappear (`dropEmpty`).
 Not modelled: `deletedColumns` shadowing (re-creating a column removed by `fields`), RRC mode, wildcards.
 
-The hash of a single value (`CValueEnclosure.Hash`, xxhash of dtype byte + text) is the parameter `h`.
+The hash of a single value (`CValueEnclosure.Hash`, xxhash of dtype byte + text) is the parameter `h`; the
+digest of the concatenated 8-byte field hashes (`xxhash.Sum64(fieldHashes)`) is the parameter `combine`.
 Core Lean only.
 -/
 namespace SigModel.Pipe
@@ -71,11 +73,6 @@ structure Proc (σ : Type) where
   rewind : σ → σ
   bottleneck : Bool
   twoPass : Bool
-  /-- Aliasing: the processors hand the IQR OBJECT they were given downstream (mutated in place), and so
-  does every later stage.  A processor that keeps a reference to what it emitted (tail's finalIqr) therefore
-  sees it as the stages downstream left it: `retain s x` = the state when the batches `x` are what has become
-  of the emitted objects.  Matters only when the chain is rewound and read again. -/
-  retain : σ → List Table → σ := fun s _ => s
 
 def otl : Option Table → List Table
   | none => []
@@ -166,12 +163,6 @@ def tailProc (n : Nat) : Proc TailSt where
   rewind := fun s => s
   bottleneck := true
   twoPass := false
-  retain := fun s x =>
-    if s.eof then
-      match s.fin, x with
-      | some _, [b] => { s with fin := some b }   -- finalIqr is the object the downstream stages mutated
-      | _, _ => s
-    else s
 
 /-! ## scroll from -/
 
@@ -263,8 +254,13 @@ def rowKey (comb : List Val → κ) (fs : List String) (r : Row) : Option κ :=
   let vs := fs.map r.get
   if vs.any Val.isNull then none else some (comb vs)
 
-/-- `hash ^= fieldToValues[field][i].Hash()` over the field list, from 0 -/
-def xorKey (h : Val → Nat) (vs : List Val) : Nat := vs.foldl (fun acc v => acc ^^^ h v) 0
+/-- the key of a combination: `xxhash.Sum64` of the concatenated little-endian field hashes, i.e. a digest
+`combine` of the SEQUENCE of the per-field hashes `h` -/
+def digestKey (h : Val → Nat) (combine : List Nat → Nat) (vs : List Val) : Nat := combine (vs.map h)
+
+/-- the key before the repair (`hash ^= fieldToValues[field][i].Hash()` from 0): kept only for the
+counterexample theorems about the old code -/
+def xorKeyOld (h : Val → Nat) (vs : List Val) : Nat := vs.foldl (fun acc v => acc ^^^ h v) 0
 
 /-- `combinationHashes` : map[uint64]int as an association list -/
 abbrev Seen := List (Nat × Nat)
@@ -282,48 +278,30 @@ def seenBump (limit : Nat) (seen : Seen) (k : Nat) : Bool × Seen :=
   | some v => (decide (v ≥ limit), seenSet seen k (v + 1))
   | none => (false, seenSet seen k 1)
 
-/-- one iteration of RecordLoop -/
-def dedupRow (h : Val → Nat) (o : DedupOpts) (seen : Seen) (r : Row) : Seen × Bool :=
-  match rowKey (xorKey h) o.fields r with
+/-- one iteration of RecordLoop; `kf` = the key of a complete tuple of field values (`digestKey h combine`) -/
+def dedupRow (kf : List Val → Nat) (o : DedupOpts) (seen : Seen) (r : Row) : Seen × Bool :=
+  match rowKey kf o.fields r with
   | none => (seen, !o.keepEmpty)
   | some k =>
     let r1 : Bool × Seen := seenBump o.limit seen k
     let seen2 := if o.consecutive then r1.2.filter (fun e => e.1 == k) else r1.2
     (seen2, r1.1)
 
-def dedupRows (h : Val → Nat) (o : DedupOpts) : Seen → Table → Seen × Table
+def dedupRows (kf : List Val → Nat) (o : DedupOpts) : Seen → Table → Seen × Table
   | seen, [] => (seen, [])
   | seen, r :: t =>
-    let x := dedupRow h o seen r
-    let rest := dedupRows h o x.1 t
+    let x := dedupRow kf o seen r
+    let rest := dedupRows kf o x.1 t
     (rest.1, emitRow o x.2 r ++ rest.2)
 
-/-- The row loop indexes the value slice of every field with the row number; a column the batch does not have
-reads as a nil slice (`ReadColumn` → nil, nil without RRCs), so reaching such a field panics (index out of
-range) unless an earlier field of the row was null. -/
-def rowPanics (b : Table) (r : Row) : List String → Bool
-  | [] => false
-  | f :: fs => if !hasCol b f then true else if (r.get f).isNull then false else rowPanics b r fs
-
-/-- a batch on which `Process` panics: in the row loop (above), or afterwards when KeepEvents clears the
-dedup fields of the discarded rows in EVERY field's slice (a nil slice for a column the batch lacks; without a
-loop panic every row stopped at a null field, so all rows are discarded unless KeepEmpty). -/
-def dedupPanics (o : DedupOpts) (b : Table) : Bool :=
-  match o.fields with
-  | [] => false
-  | f0 :: _ => !b.isEmpty && hasCol b f0 &&
-      (b.any (fun r => rowPanics b r o.fields) ||
-       (o.keepEvents && !o.keepEmpty && o.fields.any (fun f => !hasCol b f)))
-
-def dedupProc (h : Val → Nat) (o : DedupOpts) : Proc Seen where
+/-- `ReadColumnsWithBackfill(FieldList)`: a field the batch has no column for reads as a column of nulls,
+which is what `Row.get` answers for an absent key — the row loop is the same for every batch. -/
+def dedupProc (kf : List Val → Nat) (o : DedupOpts) : Proc Seen where
   init := []
   process := fun seen b =>
-    if b.isEmpty then (seen, some b, false)                    -- NumberOfRecords() == 0
-    else match o.fields with
-      | [] => (seen, none, false)                               -- error "no field specified" (not generated)
-      | f0 :: _ =>
-        if !hasCol b f0 then (seen, some b, false)              -- numRecords := len(nil) = 0: nothing examined
-        else let x := dedupRows h o seen b; (x.1, some x.2, false)
+    match o.fields with
+    | [] => (seen, none, false)                                 -- error "no field specified" (not generated)
+    | _ :: _ => let x := dedupRows kf o seen b; (x.1, some x.2, false)
   finish := fun s => (s, none)
   final := fun _ => none
   rewind := fun _ => []
@@ -374,11 +352,11 @@ def sem : Cmd → Table → Table
   | .fields inc fs, t => fieldsTable inc fs t
 
 /-- one DataProcessor of the command over a replayed upstream, fetched until EOF -/
-def runCmd (h : Val → Nat) : Cmd → List Table → Table
+def runCmd (kf : List Val → Nat) : Cmd → List Table → Table
   | .head n, parts => runBatched (headProc n) parts
   | .tail n, parts => runBatched (tailProc n) parts
   | .scroll n, parts => runBatched (scrollProc n) parts
-  | .dedup o, parts => runBatched (dedupProc h o) parts
+  | .dedup o, parts => runBatched (dedupProc kf o) parts
   | .fillnull v [], parts => runBatched (fillAllProc v) parts
   | .fillnull v (f :: fs), parts => runBatched (rowwiseProc (fillTable (f :: fs) v)) parts
   | .rename a b, parts => runBatched (rowwiseProc (renameTable a b)) parts
@@ -395,11 +373,6 @@ def Chain.rewind : Chain → Chain
   | .src parts => .src parts
   | .dp up p s f => .dp up.rewind p (p.rewind s) f
 
-/-- the objects delivered by this chain have become `x` downstream: tell every stage that kept a reference -/
-def Chain.writeBack : Chain → List Table → Chain
-  | .src parts, _ => .src parts
-  | .dp up p s f, x => .dp (up.writeBack x) p (p.retain s x) f
-
 /-- fetch the top DataProcessor until EOF: (chain afterwards, batches delivered).
 `fuel` ≥ number of stages + 1 (the recursion re-reads the rewound upstream, which is not a subterm). -/
 def Chain.read : Nat → Chain → Chain × List Table
@@ -409,7 +382,7 @@ def Chain.read : Nat → Chain → Chain × List Table
     if p.twoPass && !f then
       let u1 := Chain.read n up
       let s1 := (pass p false s u1.2).1
-      let u2 := Chain.read n (u1.1.writeBack u1.2).rewind
+      let u2 := Chain.read n u1.1.rewind
       let r := pass p true (p.rewind s1) u2.2
       (.dp u2.1 p r.1 true, r.2)
     else
@@ -417,18 +390,18 @@ def Chain.read : Nat → Chain → Chain × List Table
       let r := pass p (!p.bottleneck || (p.twoPass && f)) s u1.2
       (.dp u1.1 p r.1 f, r.2)
 
-def Cmd.stage (h : Val → Nat) (c : Cmd) (up : Chain) : Chain :=
+def Cmd.stage (kf : List Val → Nat) (c : Cmd) (up : Chain) : Chain :=
   match c with
   | .head n => .dp up (headProc n) (headProc n).init false
   | .tail n => .dp up (tailProc n) (tailProc n).init false
   | .scroll n => .dp up (scrollProc n) (scrollProc n).init false
-  | .dedup o => .dp up (dedupProc h o) (dedupProc h o).init false
+  | .dedup o => .dp up (dedupProc kf o) (dedupProc kf o).init false
   | .fillnull v [] => .dp up (fillAllProc v) (fillAllProc v).init false
   | .fillnull v fs => .dp up (rowwiseProc (fillTable fs v)) () false
   | .rename a b => .dp up (rowwiseProc (renameTable a b)) () false
   | .fields inc fs => .dp up (rowwiseProc (fieldsTable inc fs)) () false
 
-def runChain (h : Val → Nat) (cs : List Cmd) (parts : List Table) : Table :=
-  (((cs.foldl (fun up c => c.stage h up) (Chain.src parts)).read (cs.length + 1)).2).flatten
+def runChain (kf : List Val → Nat) (cs : List Cmd) (parts : List Table) : Table :=
+  (((cs.foldl (fun up c => c.stage kf up) (Chain.src parts)).read (cs.length + 1)).2).flatten
 
 end SigModel.Pipe
